@@ -18,7 +18,7 @@ REGISTRY = {
     "C04": ("model_checking", ["qf", "scale", "repotests"]),
     "C05": ("model_checking", ["bloomfam", "countmin", "cuckoo", "expanding", "scale"]),
     "C06": ("model_checking", ["layout", "saturation"]),
-    "C07": ("model_checking", ["sizing", "scale"]),
+    "C07": ("model_checking", ["sizing", "scale", "construct"]),
     "C08": ("model_checking", ["bloomfam", "cuckoo", "scale", "repotests", "proofs"]),
     "C09": ("model_checking", ["expanding", "scale", "repotests"]),
     "C10": ("model_checking", ["expanding", "scale", "repotests"]),
